@@ -493,6 +493,13 @@ func check(prop, tier string) int {
 		fv := *final.Violation
 		if f := known.match(fv); f != nil {
 			knownLines = append(knownLines, fmt.Sprintf("KNOWN-FINDING: property=%s %s [%s] %s", prop, f.What, fv.Class, fv.Signature))
+			// keep one minimised example history per known finding (written once, never updated)
+			kp := filepath.Join(verifDir, "replays", "known", fmt.Sprintf("%s-%s.json", prop, sanitize(fv.Signature)))
+			if _, err := os.Stat(kp); err != nil {
+				os.MkdirAll(filepath.Dir(kp), 0755)
+				data, _ := json.MarshalIndent(final, "", " ")
+				os.WriteFile(kp, data, 0644)
+			}
 			continue
 		}
 		name := fmt.Sprintf("%s-%s-%d.json", prop, sanitize(fv.Class), final.Seed)
